@@ -61,6 +61,14 @@ pub fn run_case(bins: &Binaries, case: &Case, reference: &[(String, Vec<u8>)], i
     args.push("--no-timing".into());
     let out_dir = if case.save_problems {
         let d = scratch.fresh_dir("xout");
+        if case.stale_out {
+            for (n, c) in reference {
+                let mut stale = b"% left behind by an earlier task\n".to_vec();
+                stale.extend_from_slice(c);
+                stale.extend_from_slice(b"tff(stale_tail, axiom, $false).\n");
+                let _ = std::fs::write(d.join(n), stale);
+            }
+        }
         args.push("--save-problems".into());
         args.push(d.to_string_lossy().into_owned());
         Some(d)
